@@ -128,6 +128,13 @@ def cases(tier, rng):
         if popcount(o) > 40 and not big:
             continue
         out += [(k + "-synthetic", c) for k, c in tweaks_for("succs", o, a, rng, False)]
+    # 3b. peak lists far longer than any accumulator has (surplus digests): verify must reject, never panic; the counts
+    # sit on both sides of the u8 / u16 boundaries of a length conversion
+    for (o, a) in ((1, 1), (5, 3), (0, 1), (2 ** 20 - 1, 2)):
+        for k in (1, 2, 63, 64, 200, 254, 255, 256, 257, 300, 65535, 65536, 65537):
+            op = "succ" if o < 64 else "succs"
+            out.append(("surplus-peaks", "%s %d %d oldpad %d" % (op, o, a, k)))
+            out.append(("surplus-peaks", "%s %d %d newpad %d" % (op, o, a, k)))
     # 4. synthetic accumulators with REPEATED digests (equal peaks / equal appended leafs, index mod 1, 2, 3)
     for o in list(range(0, 40)) + [0b1011, 0b1_0110_1011, 2 ** 20 - 1, 2 ** 33 + 2 ** 7 - 1, 2 ** 40 + 2 ** 35 - 1]:
         for a in (1, 2, 3, 8, 13):
